@@ -56,6 +56,9 @@ def result_bytes(item: Any) -> bytes:
                 "perturbed_objectives", "perturbed_constraints"):
         if hasattr(ev, fld):
             add("ev." + fld, getattr(ev, fld))
+    info = getattr(ev, "evaluation_info", None) or {}
+    for key in sorted(info):
+        add("ev.info." + str(key), info[key])
     rl = item.realizations
     for fld in ("failed_realizations", "objective_weights", "constraint_weights"):
         add("rl." + fld, getattr(rl, fld))
